@@ -28,8 +28,8 @@ PER_CHECK = {
  "C09": "Engine model choice = interleaving of load/unload instants incl. ties; event-ordered replay of every reported buffer.",
  "C10": "Formula evaluated with Python connectives over operand meanings on every returned schedule; applied flags from the engine model; reference-valid candidates (preferring those violating an operand alone) pinned to expose leaked operands / too strong encodings; any task / resource constraint kind may be declared optional, and a refused reference-valid schedule whose only culprit is an optional constraint is a violation (unapplied must exclude nothing).",
  "C11": "Field-by-field cross-checks of every returned solution object (task view vs resource view, calendar arithmetic, horizon, equality with the engine model handed out at the seam).",
- "C12": "History oracle over solve / find_another* sequences with transient injected unknowns and steered enumeration order: validity, distinctness, legality of False (examiner with the accumulated blocking state), exhaustive count against the enumerator on tiny specs.",
- "C13": "History oracle over random call sequences on one solver object under early-stop faults (unknown, virtual timeout, max_iter, disk error inside the loop): reference model = valid schedules (examiner) + documented blocking state.",
+ "C12": "History oracle over solve / find_another* sequences with transient injected unknowns, an injected KeyboardInterrupt inside one call, and steered enumeration order: validity, distinctness, legality of False (examiner with the accumulated blocking state), exhaustive count against the enumerator on tiny specs.",
+ "C13": "History oracle over random call sequences on one solver object under early-stop faults (unknown, virtual timeout, max_iter, disk error inside the loop, KeyboardInterrupt at the n-th engine check): reference model = valid schedules (examiner) + documented blocking state.",
  "C14": "Twin clients (renamed; declaration order of tasks, workers, constraints, indicators, buffers and resource assignments permuted) and two executions in one child (pristine, then after a prelude incl. an 'evil twin' reusing every name): verdicts, optima and cross-pins compared.",
  "C15": "One spec under 2-4 configurations (optimizer, priority, random_values, debug, covering logics, parallel stub): validity everywhere, agreement of definite answers, engine crashes and engine non-optimal answers classified apart; search-order options are simulated by varying the model the incremental loop starts from (a declared bound, 0, far from the optimum).",
  "C16": "Exports read back with independent parsers (json, csv, zipfile+xml, z3 SMT-LIB parser) and compared with the solution object; injected I/O faults (open/write/close, short write) on the repository's own open() calls; exported SMT-LIB re-solved and its model pinned on a fresh client.",
